@@ -13,7 +13,7 @@ PROPERTY = "C03"
 LEVEL = "fault_enumeration"
 RULE = ("fault enumeration over authentic reference-built reply packets: every single-bit flip at every bit position and "
         "every truncation length through LAN.send on the simulated wire (followed by an honest exchange), every single-byte "
-        "substitution (all 255 values) and every position pair x {01,80,FF}^2 at the _Packet.decode seam; the same packets followed by "
+        "substitution (all 255 values), every position pair x {01,80,FF}^2 and every 2/4/8/16/32-byte window overwritten with 00/FF/complement at the _Packet.decode seam; the same packets followed by "
         "further bytes in the segment; every bit flip of the inner packet inside an authentic V3 envelope. "
         "A case is (frame length, fault); all are non-trivial (each changes the packet)")
 ASSUMPTIONS = ["authentic packets are built by the reference codec", "truncation to zero bytes is not a TCP delivery and is excluded"]
@@ -28,7 +28,8 @@ def lengths(tier):
 def bounds(tier):
     return {"frame_lengths": lengths(tier), "bit_flips": "all", "truncations": "1..n-1",
             "substitutions": "all 255 values x every byte",
-            "pairs": "all position pairs x {01,80,FF}^2 on the 72-byte packet"}
+            "pairs": "all position pairs x {01,80,FF}^2 on the 72-byte packet",
+            "windows": "every offset x widths {2,4,8,16,32} x {00, FF, complement}"}
 
 
 def authentic(n: int) -> tuple[bytes, bytes]:
@@ -43,6 +44,7 @@ def shards(tier):
         out.append(("bits", n, 0))
         out.append(("trunc", n, 0))
         out.append(("subst", n, 0))
+        out.append(("fill", n, 0))
     for i in range(8):
         out.append(("pairs", 0, i))
     for n in lengths(tier):
@@ -206,6 +208,21 @@ def run_shard(shard, tier) -> Stats:
                         st.violation(f"substitution{' after the authentic packet' if primed else ''} field={field(i, len(pkt))} -> {d[0]}",
                                      {"kind": kind, "len": n, "pos": i, "xor": mask, "primed": primed is not None}, "ProtocolError", d)
                     st.ev((kind, n, i, mask, primed is not None), d[0], True)
+    elif kind == "fill":
+        # multi-byte corruption, systematically: every window of 2/4/8/16/32 bytes at every offset overwritten with 00.. / FF.. /
+        # its complement (a zeroed or saturated field is what broken firmware and middleboxes actually produce)
+        for width in (2, 4, 8, 16, 32):
+            for i in range(0, len(pkt) - width + 1):
+                for fi, fill in enumerate((b"\x00" * width, b"\xff" * width, bytes(b ^ 0xFF for b in pkt[i:i + width]))):
+                    if pkt[i:i + width] == fill:
+                        continue
+                    m = pkt[:i] + fill + pkt[i + width:]
+                    for primed in (None, pkt):
+                        d = direct(m, primed)
+                        if d[0] != "ProtocolError":
+                            st.violation(f"window overwritten{' after the authentic packet' if primed else ''} fields={field(i, len(pkt))}..{field(i + width - 1, len(pkt))} -> {d[0]}",
+                                         {"kind": kind, "len": n, "pos": i, "width": width, "fill": fi, "primed": primed is not None}, "ProtocolError", d)
+                        st.ev((kind, n, i, width, fi, primed is not None), d[0], True)
     elif kind == "tail":
         # bytes following an authentic packet (padding, garbage, a second packet): never a frame other than the one sent
         from ..harness import filler
@@ -273,6 +290,9 @@ def replay(case):
         m = m[:case["keep"]]
     elif case["kind"] == "subst":
         m[case["pos"]] ^= case["xor"]
+    elif case["kind"] == "fill":
+        i, wd = case["pos"], case["width"]
+        m[i:i + wd] = (b"\x00" * wd, b"\xff" * wd, bytes(b ^ 0xFF for b in pkt[i:i + wd]))[case["fill"]]
     else:
         for p, x in zip(case["pos"], case["xor"]):
             m[p] ^= x
